@@ -31,6 +31,8 @@ def main():
     for pname, name, f, want in job["expect"]:
         if isinstance(want, list):
             want = tuple(want)
+        elif isinstance(want, dict):
+            want = bytes.fromhex(want["__bytes__"])
         try:
             got = getattr(objs[pname], name)
             ok = c08.same(f, got, want) is True
